@@ -269,6 +269,22 @@ theorem modify_zero_momentum (vk vr : Variant) (s : Setup) (src : Frame) (e : Op
 example : zeroMomentumFlag Engine.cp2k none = true ∧ zeroMomentumFlag Engine.gromacs (some true) = true := by
   decide
 
+/-- **One atom (degenerate).** Removing the momentum of a single particle leaves it at rest: the code's
+    `vel -= (m·v)/m` gives exactly 0 in the model (rounding residue ≤ 1 ulp in floats), so with
+    zero_momentum on a one-atom system gets `kin_new = 0`. -/
+theorem one_atom_reset_is_zero (m : Rat) (hm : m ≠ 0) (vel : List Rat) :
+    resetMomentum [m] (vel.map (fun v => [v])) = vel.map (fun _ => [0]) := by
+  simp only [resetMomentum, List.map_map]
+  apply List.map_congr_left
+  intro v _
+  simp only [Function.comp, resetCol, dot, sumL, List.map_cons, List.map_nil, add_zero]
+  congr 1
+  field_simp
+  ring
+
+example : resetMomentum [3] [[2], [-1], [0]] = [[0], [0], [0]] := by
+  norm_num [resetMomentum, resetCol, dot, sumL]
+
 /-! ## 4. the reported kinetic-energy change -/
 
 /-- `kin_new` is the kinetic energy of the velocities that were written — for the four
@@ -303,6 +319,19 @@ theorem dek_consistent_gromacs (vk vr : Variant) (s : Setup) (src : Frame) (e : 
       | none => Dek.inf
       | some k => Dek.val (kineticEnergy (mass s) (modifyVelocities vk vr s src e zm sig z).frame.vel - k) := by
   cases e <;> simp [modifyVelocities, modifyNumpy, hg, dekNoneRule]
+
+/-- **Boundaries of the dek rule.** A stored `system.ekin = 0.0` is *not* "absent" for GROMACS
+    (`is None` test): `dek = kin_new − 0`; for the other engines an old kinetic energy of exactly 0
+    (frame without velocities) gives `inf`, any non-zero one a finite value. -/
+theorem dek_rule_boundaries (kinNew k : Rat) :
+    dekNoneRule (some 0) kinNew = Dek.val (kinNew - 0) ∧ dekNoneRule none kinNew = Dek.inf
+    ∧ dekZeroRule 0 kinNew = Dek.inf ∧ (k ≠ 0 → dekZeroRule k kinNew = Dek.val (kinNew - k)) := by
+  refine ⟨rfl, rfl, by simp [dekZeroRule], fun hk => by simp [dekZeroRule, hk]⟩
+
+example : dekZeroRule 5 5 = Dek.val 0 ∧ (5 : Rat) ≠ 0 := by
+  constructor
+  · norm_num [dekZeroRule]
+  · norm_num
 
 /-- witness: ASE as it is, one particle-pair, zero_momentum on -/
 def aseWitnessSetup : Setup := { engine := .ase, temperature := 300, boltzmann := 1, massIn := [1, 1] }
